@@ -28,6 +28,10 @@ impl Buffer {
     }
 
     pub fn push_typed_cols(&mut self, columns: HashMap<String, InputColumn>) {
+        // A batch without rows appends nothing
+        if columns.values().all(|c| c.len() == 0) {
+            return;
+        }
         let len = self.len();
         let mut new_length = 0;
         for (name, input_col) in columns {
